@@ -35,7 +35,8 @@ CHECKS = {
             'EffectiveH.to_matrix equals matvec in a fresh environment; orthogonal_to yields an orthogonal state above lambda_1; '
             'VUMPS on infinite Ising chains against the exact energy density (also stopped early, also with explicit_plus_hc MPOs); '
             'infinite DMRG: ledger over sweep() calls for the reported truncation statistics, canonical form, energy density vs '
-            'H_MPO.expectation_value and the exact Ising value; a quarter of the finite models has explicit_plus_hc.',
+            'H_MPO.expectation_value and the exact Ising value; a quarter of the finite models has explicit_plus_hc; runs that end with '
+            'the mixer on and a binding chi_max; stored Schmidt values of the result normalised and none vanishing.',
             'convergence is judged only where the nearest-neighbour terms connect the invariant subspace and a random field breaks '
             'hidden symmetries (elsewhere a stuck local optimisation is a limit of the algorithm); orthogonal_to is judged only for '
             'negative target energies (documented limitation)', 'DESIGN.md §C13'),
@@ -79,7 +80,9 @@ CHECKS = {
             'history (none lost, none duplicated) and a sweep history that is the exact tail of the uninterrupted one; (3) from the '
             'file set a first crash leaves (partial output + backup, complete output, only the backup), the resumed run is killed at '
             'every file-system call of its first save; (4) engine level: psi, options and get_resume_data() are kept at every '
-            'checkpoint of DMRG runs (with and without orthogonal_to), a fresh engine is resumed and must reproduce the result.',
+            'checkpoint of DMRG runs (with and without orthogonal_to), a fresh engine is resumed and must reproduce the result; '
+            '(5) resume also for TEBD on sites grouped in pairs; every third crash case uses output names with a dot in the stem and lets '
+            'a sibling simulation finish in the same directory before the files of the killed run are inspected.',
             'process death = SIGKILL at system-call entry (page-cache contents survive; power loss is out of reach); a checkpoint is '
             'identified by the deterministic part of the results', 'DESIGN.md §C18'),
     'C12': ('exploration', 'dense operator identities evaluated on every configuration of the (finite, exhaustively enumerated) '
